@@ -88,6 +88,10 @@ type Variant struct {
 	SAddr            int  // FLAT scalar base (0x7F = off)
 	ImmOff           int  // FLAT 13-bit signed offset
 	// Semantics used by the state builder / permutation action.
+	// Unused fields are packed as zero (llvm-mc rejects encodings with non-zero reserved fields);
+	// the check sets these after the first decode told it which operands the opcode has.
+	NoSrc1, NoSrc2          bool // VOP3
+	NoData0, NoData1, NoDst bool // DS, FLAT
 	VCCData  bool // VCC is read as uniform data in this variant: it is NOT permuted with the lanes
 	Src2Mask bool // variant only meaningful for opcodes whose SRC2 is a lane mask (SRC2 = s[8:9] or VCC)
 }
@@ -148,6 +152,9 @@ func Variants(f Format) []Variant {
 	case FLAT:
 		return []Variant{
 			{Name: "saddr=off,imm=0", SAddr: 0x7F},
+			// GCN3's FLAT has no SADDR/offset fields (reserved, zero); the decoder reads zero as
+			// "off" for GCN3 and as s[0:1] for CDNA3
+			{Name: "saddr-field=0,imm=0", SAddr: 0},
 			{Name: "saddr=off,imm=+16", SAddr: 0x7F, ImmOff: 16},
 			{Name: "saddr=off,imm=-8", SAddr: 0x7F, ImmOff: -8},
 			{Name: "saddr=sgpr,imm=0", SAddr: SRegBase},
@@ -205,13 +212,37 @@ func Encode(f Format, op int, va Variant, isVOP3b bool) []byte {
 		} else {
 			lo |= uint32(va.Abs) << 8
 		}
-		hi = uint32(va.Src0) | uint32(va.Src1)<<9 | uint32(va.Src2)<<18 | uint32(va.Neg)<<29
+		hi = uint32(va.Src0) | uint32(va.Neg)<<29
+		if !va.NoSrc1 {
+			hi |= uint32(va.Src1) << 9
+		}
+		if !va.NoSrc2 {
+			hi |= uint32(va.Src2) << 18
+		}
 	case DS:
 		lo = 0xD8000000 | uint32(op)<<17 | uint32(va.Off1)<<8 | uint32(va.Off0)
-		hi = uint32(RegAddr) | uint32(RegSrc0)<<8 | uint32(RegSrc1)<<16 | uint32(RegDst)<<24
+		hi = uint32(RegAddr)
+		if !va.NoData0 {
+			hi |= uint32(RegSrc0) << 8
+		}
+		if !va.NoData1 {
+			hi |= uint32(RegSrc1) << 16
+		}
+		if !va.NoDst {
+			hi |= uint32(RegDst) << 24
+		}
 	case FLAT:
 		lo = 0xDC000000 | uint32(op)<<18 | uint32(va.ImmOff)&0x1fff
-		hi = uint32(RegAddr) | uint32(RegSrc0)<<8 | uint32(va.SAddr)<<16 | uint32(RegDst)<<24
+		if va.SAddr != 0x7F && va.SAddr != 0 {
+			lo |= 2 << 14 // SEG = global: only global_* instructions take a scalar base (GFX9)
+		}
+		hi = uint32(RegAddr) | uint32(va.SAddr)<<16
+		if !va.NoData0 {
+			hi |= uint32(RegSrc0) << 8
+		}
+		if !va.NoDst {
+			hi |= uint32(RegDst) << 24
+		}
 	case SOP2:
 		lo = 0x80000000 | uint32(op)<<23 | uint32(SRegDst)<<16 | uint32(va.Src1)<<8 | uint32(va.Src0)
 	case SOP1:
